@@ -64,9 +64,10 @@ EXHAUSTIVE_SCOPE = {
   "quick": "scenarios a (2 threads x 2 callLater; 2 x 1 via core.call_later / raiseLater), b (2 foreign wakers + 1 in-thread waker), "
            "c (1 task x 3 steps, 2 threads x 1 section, one nested) : every schedule with <= 1 deviation from the default "
            "round-robin schedule at window lines / forced switches, both hub modes, both base orders; scenario d: every pair of "
-           "lock programs of length 3 over {acquire, try, release, yield} on one lock, both hub modes, default schedule",
-  "thorough": "as quick with <= 2 deviations (<= 3 for a with 2 threads x 1 op); d: every triple of length-3 programs on one lock "
-              "and every pair of length-3 programs on two locks",
+           "lock programs of length 3 and every triple of length 2 over {acquire, try, release, yield} on one lock, default "
+           "schedule; the same deviation enumeration (<= 1) with the scheduler under test not being recoco.defaultScheduler",
+  "thorough": "as quick with <= 2 deviations (<= 3 for a with 2 threads x 1 op, threaded hub, base order 0); d: every triple of "
+              "length-3 programs on one lock and every pair of length-3 programs on two locks",
 }
 
 CYCLE_MAX = 2
@@ -746,11 +747,11 @@ def _dev_cases(scn, p, hub, base, bound, cfg=None):
 def _enum_sched(tier):
   def gen():
     for idx, (scn, p) in enumerate(_small_instances()):
-      bound = 1 if tier == "quick" else 2
-      if tier == "thorough" and idx == 1:
-        bound = 3
       for hub in (True, False):
         for base in (0, 1):
+          bound = 1 if tier == "quick" else 2
+          if tier == "thorough" and idx == 1 and hub and base == 0:
+            bound = 3
           for c in _dev_cases(scn, p, hub, base, bound):
             yield c
   return gen
@@ -822,7 +823,8 @@ def _enum_nondefault(tier):
                    ("b", {"wakers": [1], "inthread": 1}), ("c", {"tasks": [2], "threads": [[1]]})]:
       for hub in (True, False):
         for base in (0, 1):
-          for c in _dev_cases(scn, p, hub, base, 1 if scn != "c" else 0, cfg="nondefault"):
+          bound = 0 if scn == "c" else (2 if tier == "thorough" and scn == "b" else 1)
+          for c in _dev_cases(scn, p, hub, base, bound, cfg="nondefault"):
             yield c
   return gen
 
